@@ -100,6 +100,7 @@ func hostLine(n, m string) string {
 func safely(f func() string) (s string) {
 	defer func() {
 		if e := recover(); e != nil {
+			debugPanic(e)
 			s = "crash"
 		}
 	}()
